@@ -416,10 +416,27 @@ def ref_values(t, depth=0, rich=True):
         out = []
         for leaf in leaves_of(t):
             out.extend(struct_values(leaf, depth, rich))
+        if SUBCLASS[0] and depth < 2 and not t.has_enumerated_subtypes() and tree_root(t) is None:
+            # an instance of an extending struct is a legal value wherever its parent is declared (C08); the position carries the
+            # parent's fields only
+            for c in _descendants(t):
+                if not c.has_enumerated_subtypes():
+                    out.extend(struct_values(c, depth, rich)[-1:])
         return out
     if isinstance(t, dt.Union):
         return union_values(t, depth, rich)
     raise TypeError('no values for %r' % (t,))
+
+
+SUBCLASS = [False]   # C05 only: also offer instances of extending structs at parent-typed positions (no round-trip values)
+
+
+def _descendants(s):
+    out = []
+    for c in getattr(s, 'subtypes', []) or []:
+        out.append(c)
+        out.extend(_descendants(c))
+    return out
 
 
 def struct_values(s, depth, rich=True):
@@ -510,7 +527,9 @@ def ref_encode(api, t, v):
         if t.has_enumerated_subtypes():
             out['.tag'] = leaf_tag(t, actual) if actual is not t else None
         given = dict(v.fields)
-        for f in struct_fields(actual):
+        # a value of an extending struct at a position declared as its (non-enumerating) ancestor carries the declared type's fields
+        carrier = actual if (t.has_enumerated_subtypes() or actual is t or tree_root(t) is not None) else t
+        for f in struct_fields(carrier):
             if f.name in given:
                 out[f.name] = ref_encode(api, f.data_type, given[f.name])
         return out
